@@ -200,6 +200,9 @@ var tmpBase = func() string {
 
 var dirSeq int
 
+// sharedMeta: the members of one cluster share the meta store (etcd) and have a region storage each.
+var sharedMeta kv.Base
+
 func newMock(ctx context.Context, name string) *mockServer {
 	dirSeq++
 	dir := fmt.Sprintf("%s/%d-%d", tmpBase, os.Getpid(), dirSeq)
@@ -207,7 +210,14 @@ func newMock(ctx context.Context, name string) *mockServer {
 	if err != nil {
 		panic(err)
 	}
-	return &mockServer{ctx: ctx, name: name, storage: core.NewStorage(kv.NewMemoryKV(), core.WithRegionStorage(rs)), bc: core.NewBasicCluster(), dir: dir, addr: "http://127.0.0.1:1"}
+	return &mockServer{ctx: ctx, name: name, storage: core.NewStorage(metaKV(), core.WithRegionStorage(rs)), bc: core.NewBasicCluster(), dir: dir, addr: "http://127.0.0.1:1"}
+}
+
+func metaKV() kv.Base {
+	if sharedMeta != nil {
+		return sharedMeta
+	}
+	return kv.NewMemoryKV()
 }
 
 func (s *mockServer) close() { s.storage.Close(); os.RemoveAll(s.dir) }
@@ -337,6 +347,8 @@ var staleStats bool
 func leaderFollower(n int, withLeader func(int) bool, incremental int, label string, endToEnd bool) (*evidence.Violation, bool, int) {
 	ctx, cancel := context.WithCancel(context.Background())
 	defer cancel()
+	sharedMeta = kv.NewMemoryKV()
+	defer func() { sharedMeta = nil }()
 	leaderSrv := newMock(ctx, "leader")
 	defer leaderSrv.close()
 	var regions []*core.RegionInfo
@@ -392,6 +404,10 @@ func leaderFollower(n int, withLeader func(int) bool, incremental int, label str
 	folSrv := newMock(ctx, "follower")
 	defer folSrv.close()
 	fs := syncer.NewRegionSyncer(folSrv)
+	if idx := fs.VerifHistory().GetNextIndex(); idx != 0 {
+		// its own region storage is empty: whatever it loaded is somebody else's index
+		return &evidence.Violation{Key: "follower-index-not-its-own", Message: fmt.Sprintf("%s: a follower with an empty region storage starts at index %d (the leader is at %d)", what, idx, ls.VerifHistory().GetNextIndex())}, true, msgs
+	}
 	if formerLeader {
 		for _, r := range regions {
 			old := r.GetMeta().Peers[(int(r.GetID())+1)%3]
